@@ -1,6 +1,8 @@
 import Hive.Proofs.SerixJson
 import Hive.Proofs.SerixJsonOrder
 import Hive.Proofs.SerixJsonDeep
+import Hive.Proofs.SerixJsonCanon
+import Hive.Proofs.SerixJsonCanonId
 /-!
 # C01 (JSON/map form) — MapEncode/JSONEncode then MapDecode/JSONDecode round-trips every value the form can express
 
@@ -29,6 +31,22 @@ theorem C01_json_api_roundtrip (t : JTy) (v : Val) (ms : List (String × Json)) 
   cases j <;> simp at h
   subst h
   exact C01_json_roundtrip fc o t v _ ht hv hj
+
+/-- **C01, JSON/map form, every well-typed value.**  What comes back is `canon t v`
+(`Hive/Spec/SerixJsonCanon.lean`): the value itself, except that nil slices / maps come back empty,
+an `omitempty` field that `IsZero` accepts comes back as the zero value (`-0` as `+0`, a nil map as nil),
+times before the epoch as the epoch, floats as `ParseFloat (FormatFloat v)` (NaN payloads as the canonical
+NaN).  `WellTyped` only asks for a Go value of the type with `big.Int`s inside uint256; `fc.Total` says that
+strconv parses what it prints. -/
+theorem C01_json_roundtrip_canon (htot : fc.Total) (t : JTy) (v : Val) (j : Json) (ht : JsonExpressible t)
+    (hv : WellTyped fc t v) (h : mapEncode fc o t v = .ok j) : mapDecode fc o t j = .ok (canon fc t v) :=
+  (rtc_ty fc o htot t v j ht hv h).1
+
+/-- the values `ValExpressible` singles out are exactly ones that come back unchanged: for them
+`C01_json_roundtrip_canon` is `C01_json_roundtrip`. -/
+theorem C01_json_canon_id (t : JTy) (v : Val) (hv : ValExpressible fc t v) :
+    canon fc t v = v ∧ WellTyped fc t v :=
+  canon_id_ty fc t v hv
 
 /-! ### Go map iteration order -/
 
@@ -187,6 +205,30 @@ def exVal : Val := .struct [.num 64, .num 32, .num (-64), .num (-8), .num 0, .fl
   .str "abcd", .bool true]
 
 example : ValExpressible exFc exBasic exVal := by decide
+
+/-- `exFc` parses what it prints. -/
+example : exFc.Total := fun _ _ => ⟨0x3fdc28f5c28f5c29, by simp [exFc]⟩
+
+/-- the values `ValExpressible` leaves out are well-typed, and `canon` says what they come back as:
+a nil slice and a nil `[]byte` as empty ones, a nil map as an empty map — but a nil map under
+`omitempty` as nil —, `time.Time{}` and a time before the epoch as the epoch, `-0` under `omitempty` as
+`+0`, a zero struct with a nil slice inside under `omitempty` unchanged. -/
+def exOdd : JTy := .struct none
+  (.named "s" false false (.slice nb (.uint 16)) (.named "b" false false (.bytes nb)
+  (.named "m" false false (.map nb (.str nb) .bool) (.named "mo" false true (.map nb (.str nb) .bool)
+  (.named "t0" false false .time (.named "t1" false false .time
+  (.named "z" false true (.float 64)
+  (.named "st" false true (.struct none (.named "q" false false (.slice nb (.str nb)) .nil)) .nil))))))))
+
+example : WellTyped exFc exOdd
+    (.struct [.nil, .nil, .nil, .nil, .nil, .num (-5), .float (2 ^ 63), .struct [.nil]]) := by decide
+
+example : ¬ ValExpressible exFc exOdd
+    (.struct [.nil, .nil, .nil, .nil, .nil, .num (-5), .float (2 ^ 63), .struct [.nil]]) := by decide
+
+example : canon exFc exOdd (.struct [.nil, .nil, .nil, .nil, .nil, .num (-5), .float (2 ^ 63), .struct [.nil]])
+    = .struct [.list [], .bytes [], .map [], .nil, .num 0, .num 0, .float 0, .struct [.nil]] := by
+  simp [canon, canonFields, exOdd, isEmpty, isZero, zeroFields, Val.isNil, missingVal, goZero, zeroVals]
 
 /-- the hypotheses of `C01_json_key_order_irrelevant` are satisfiable: a document with a nested
 object, both levels permuted. -/
